@@ -269,9 +269,14 @@ impl Searcher {
                         .map(|r| r.0)
                         .collect();
 
-                    best_mv = line.first().copied();
+                    // In a saturated table the root entry can be displaced during the iteration,
+                    // and it is not written again when no move improved on a stored bound. There
+                    // is no line to report then: keep the previous best move and keep deepening
+                    if line.is_empty() {
+                        continue;
+                    }
 
-                    assert!(!line.is_empty());
+                    best_mv = line.first().copied();
 
                     // Make sure that the line we're returning is actually valid
                     debug_assert!({
